@@ -267,16 +267,15 @@ def r20_set_backend(ctx):
     for mod in (m, ctx.p.module(BK)):
         for local, (modname, attr) in mod.imports.items():
             full = f'{modname}.{attr}' if attr else modname
-            bad = full.startswith('mido.backends.') and full.split('.')[2] not in ('backend',) or full in ('rtmidi', 'pygame', 'portmidi')
+            tgt = ctx.p.modules.get(full) or ctx.p.modules.get(modname)
+            # a backend implementation: a module of the package that offers ports / a device list, or one of the MIDI libraries
+            impl = tgt is not None and tgt.name.startswith('mido.backends.') and tgt.name != BK and (
+                {'get_devices', 'Input', 'Output', 'IOPort'} & (set(tgt.functions) | set(tgt.classes)))
+            bad = bool(impl) or full.split('.')[0] in ('rtmidi', 'pygame', 'portmidi', 'rtmidi_python')
             ctx.require(not bad, 'R20.1', f'{mod.name}.imports({full})', f'{mod.relpath}:1', f'{mod.name} imports the backend module {full} eagerly',
                         construct=f'{mod.relpath}::eager-import({full})')
-    # the only import-performing call in backend.py is in load()
-    bm = ctx.p.module(BK)
-    for fn in list(bm.functions.values()) + [x for c in bm.classes.values() for x in c.methods.values()]:
-        for c in astq.calls(fn.node):
-            q = astq.callee_qname(ctx.p, fn, c)
-            if q in ('importlib.import_module', '__import__'):
-                ctx.require(fn.name == 'load', 'R20.1', f'{fn.name}.import', ctx.where(fn, c), f'{fn.name} imports a module', construct=f'{fn.qname}::imports')
+    # (that nothing but first use imports the backend module is decided on the executions above: the import events of every
+    # configuration are compared with the reference, whichever method performs the import)
 
 
 RULES = [('R20-open', r20_open), ('R20.4', r20_backend_name), ('R20.5', r20_names), ('R20.6', r20_set_backend)]
